@@ -278,3 +278,89 @@ def ord18_no_flusher_before_replay_is_complete(ctx):
                        'segments whose rows are not yet in any partition'), where(t))
         ctx.require(k >= 1, 'ORD-18: %s never starts anything that reaches the flush' % b.name)
     ctx.require(n >= 1, 'ORD-18: no start-up replay routine found')
+
+
+# ------------------------------------------------------------------------------------ CND-3
+def _size_limit_comparisons(ctx, F, limit_field='max_wal_size_bytes'):
+    """[(op, stmt)] with op in {'Gt','Ge','Lt','Le'} normalised to `size OP limit`, for every comparison in F
+    one of whose operands is read from the options field `limit_field` (directly, or through a local /
+    closure capture that was assigned from it)."""
+    du = DefUse(F)
+    out = []
+    flip = {'Gt': 'Lt', 'Ge': 'Le', 'Lt': 'Gt', 'Le': 'Ge'}
+    for bid, blk in F.blocks.items():
+        if blk.cleanup:
+            continue
+        for s in blk.stmts:
+            if s.kind != 'assign':
+                continue
+            m = re.match(r'^(Gt|Ge|Lt|Le)\((.*), (.*)\)$', s.rhs)
+            if not m:
+                continue
+            op, a, b = m.group(1), m.group(2).strip(), m.group(3).strip()
+            for (x, y, o) in ((a, b, op), (b, a, flip[op])):
+                if y.startswith('const'):
+                    continue
+                is_limit = False
+                try:
+                    root, steps = typed_path(F, du, y)
+                    nm = field_names(ctx, steps)
+                    is_limit = bool(nm) and nm[-1] == limit_field
+                except Exception:
+                    pass
+                if not is_limit:
+                    l = base_local(y)
+                    if l is not None:
+                        names = [n for (n, pl) in F.debug_all if re.match(r'^\(?\*?\(?_?%d\b' % l, pl.strip().lstrip('(*').lstrip('_')) or pl.strip() == '_%d' % l]
+                        is_limit = limit_field in names
+                if is_limit:
+                    out.append((o, s, bid))
+    return out
+
+
+def cnd3_block_condition_implies_flush_condition(ctx):
+    """Ingestion blocks while the accounted log size stands in some relation to `max_wal_size_bytes`; the
+    flush thread flushes (and resets the size) when the size stands in some relation to the same limit.
+    Whenever ingestion blocks the flush has to fire, i.e. the blocking relation must imply the
+    triggering relation: blocking on `>=` while flushing on `>` leaves ingestion waiting for ever when
+    the size equals the limit exactly."""
+    ctx.rule('CND-3', 'the condition under which ingestion waits for the log to shrink implies the condition '
+                      'under which the flush thread flushes (same limit, relation at least as strict)', floor=1)
+    P = ctx.P
+    ING = P.one('InnerLocustDB::ingest_efficient')
+    FL = P.one('InnerLocustDB::enforce_wal_limit')
+    from . import common as _c
+    FL = _c.inlined_anchor(P, FL, lambda n: n.endswith('Storage::unflushed_wal_ids') or n.endswith('MetaStore::unflushed_wal_ids'),
+                           keep=('InnerLocustDB::wal_flush',))
+    bodies = [ING] + [cb for cb in P.closures_of(ING)]
+    block = []
+    for b in bodies:
+        b.parse()
+        for (o, s, bid) in _size_limit_comparisons(ctx, b):
+            block.append((o, s, b))
+    # keep the comparisons that control a condvar wait: in the body of a wait_while predicate, or
+    # dominating a Condvar::wait call on their true edge
+    waits = [(blk, t) for (blk, t) in ING.calls() if not blk.cleanup and re.search(r'Condvar::wait(_while|_timeout|_timeout_while)?$', norm_callee(t.func or ''))]
+    ctx.require(waits, 'CND-3: ingest_efficient never waits on a condvar')
+    pred_closures = set()
+    for (blk, t) in waits:
+        for cb in P.closures_in_text(t.func or ''):
+            pred_closures.add(cb.name)
+    ops_block = set()
+    site = None
+    for (o, s, b) in block:
+        if b.name in pred_closures or b is ING:
+            if o in ('Gt', 'Ge'):
+                ops_block.add(o)
+                site = s
+    ctx.require(ops_block, 'CND-3: no comparison of the log size with max_wal_size_bytes controls the wait in ingest_efficient')
+    ops_flush = {o for (o, s, bid) in _size_limit_comparisons(ctx, FL) if o in ('Gt', 'Ge')}
+    ctx.require(ops_flush, 'CND-3: no comparison of the log size with max_wal_size_bytes in the flush thread')
+    strict = {'Gt': 2, 'Ge': 1}
+    ok = min(strict[o] for o in ops_block) >= min(strict[o] for o in ops_flush)
+    sym = {'Gt': '>', 'Ge': '>='}
+    ctx.check('CND-3', 'ingest_efficient|blocking-implies-flush', ok,
+              'ingestion blocks while size %s limit, the flush thread flushes when size %s limit%s' %
+              ('/'.join(sym[o] for o in sorted(ops_block)), '/'.join(sym[o] for o in sorted(ops_flush)),
+               '' if ok else ': at size == limit ingestion waits for a flush that is never triggered'),
+              where(site))
